@@ -42,6 +42,8 @@ type Check struct {
 
 	// RaceRelevant decides whether a race report signature refutes this property.
 	RaceRelevant func(sig RaceSig) bool
+	// Post runs in the parent after all scenarios were merged (aggregate verdicts).
+	Post func(c *Ctx)
 	// CrashKey may refine the violation key for a crashed child (default: class + panic + frame).
 	CrashKey func(class, panicMsg, frame string) string
 }
